@@ -357,6 +357,13 @@ func runMessages(c *mon.C, ms []msg, side ref.Side, nplans int, payloadMarks ...
 				o.Buf = 4096 // the transport boundary, not the caller's buffer, cuts the chunk
 			}
 			c.Count(1)
+			// every other run of the raw reader: the continuation handler reads the continuation bodies itself
+			o.ContRead = o.Entry == "reader" && o.Discard == nil && (c.I+pi+len(stream))%2 == 1
+			// the last plan: the transport sits behind another kind of io.Reader
+			o.Wrap = ""
+			if pi == nplans-1 && nplans > 1 && len(payloadMarks) == 0 {
+				o.Wrap = drive.Wraps[(c.I+ei+len(stream))%len(drive.Wraps)]
+			}
 			obs := drive.Run(xport.NewChunker(stream, plan), o)
 			// compare data messages only (control events are C04's business)
 			var got []ref.Event
